@@ -456,7 +456,11 @@ def run_program(W, prog, sink: dict, strays: list):
         d = R.probe_digest(op)
         outcome, ret = R.apply(op)
         if outcome.startswith("stray:"):
-            strays.append({"prog": prog[: step + 1], "error": outcome})
+            # an undocumented exception counts against the properties only in a history they speak about: successful
+            # operations so far (after a rejected one that left partial effects behind, e.g., a stored parent link can
+            # resolve to a node of another class, and the library then raises its own "this is a bug" RuntimeError)
+            if clean:
+                strays.append({"prog": prog[: step + 1], "error": outcome})
             break
         if op["op"] in CREATING:
             R.nodes.append(ret)         # None when the operation was rejected: the handle stays unusable
@@ -740,24 +744,29 @@ def run(chk: core.Check, pid: str, classify):
                ("after-tuple-2", 7, 7, ["LLeaf", "LUnary", "LMany"], 2, PD, (0,), None, None, TUPLE),
                ("after-chain-3", 6, 6, ["LLeaf", "LUnary"], 1, PD, (0, 1), None, None, CHAIN)]
     else:
+        # a trailing False: model checking only (the design's invariants at a depth whose witness programs would be
+        # too many to execute)
         mcs = [("abc-4", 4, 4, ["LLeaf", "LUnary", "LMany"], 2, ALL3, (0, 1), None, None, ()),
                ("chains-6", 6, 5, ["LLeaf", "LUnary"], 1, PD, (0,), None, None, ()),
                ("opt-list-5", 5, 4, ["LLeaf", "LSub", "LOpt", "LList"], 2, PD, (0,), None, None, ()),
                ("focus-detach-7", 7, 6, ["LLeaf", "LUnary"], 1, ("plain",), (0,), DETACH, ("attached",), ()),
                ("focus-replace-6", 6, 4, ["LLeaf", "LMany"], 2, ("plain",), (0,), REPL, ("attached",), ()),
-               ("replace-kids-6", 6, 6, ["LLeaf", "LMany"], 2, ("plain",), (0,), {"create", "replace_kids"}, ("attached",), ()),
-               ("after-tuple-3", 8, 8, ["LLeaf", "LUnary", "LMany"], 2, PD, (0,), None, None, TUPLE),
-               ("after-chain-4", 7, 7, ["LLeaf", "LUnary"], 1, PD, (0, 1), None, None, CHAIN)]
+               ("after-tuple-2", 7, 7, ["LLeaf", "LUnary", "LMany"], 2, ALL3, (0, 1), None, None, TUPLE),
+               ("after-chain-3", 6, 6, ["LLeaf", "LUnary"], 1, ALL3, (0, 1), None, None, CHAIN),
+               ("replace-kids-6", 6, 6, ["LLeaf", "LMany"], 2, ("plain",), (0,), {"create", "replace_kids"}, ("attached",), (), False),
+               ("after-tuple-3", 8, 8, ["LLeaf", "LUnary", "LMany"], 2, ("plain",), (0,), None, None, TUPLE, False),
+               ("after-chain-4", 7, 7, ["LLeaf", "LUnary"], 1, PD, (0,), None, None, CHAIN, False)]
     import concurrent.futures as cf
 
     def one_mc(spec):
-        name, maxops, maxh, classes, maxkids, modes, atoms, ops, dupmodes, prelude = spec
-        return name, mc_design(chk, pid, name, maxops, maxh, classes, maxkids, modes=modes, atoms=atoms, ops=ops,
+        name, maxops, maxh, classes, maxkids, modes, atoms, ops, dupmodes, prelude = spec[:10]
+        emit = spec[10] if len(spec) > 10 else True
+        return name, mc_design(chk, pid, name, maxops, maxh, classes, maxkids, modes=modes, atoms=atoms, ops=ops, emit=emit,
                                dupmodes=dupmodes or ("attached", "detached"), prelude=prelude, workers=max(2, core.NPROC // 3))
     with cf.ThreadPoolExecutor(max_workers=3) as ex:
         results = list(ex.map(one_mc, mcs))
     for name, r in results:
-        chk.note_tlc(f"LegacyMC/{name}", r, "mc+gen")
+        chk.note_tlc(f"LegacyMC/{name}", r, "mc+gen" if r.json_raw else "mc")
         if r.violated:
             chk.tlc_violation("LegacyMC-" + name, r)
         else:
